@@ -93,7 +93,7 @@ Advance(c0, trk, call, o) ==
 \* ---- C14 ---------------------------------------------------------------------------
 Declared(c, H) == IF Len(c.mem) >= H.sizeOff + 4 THEN U32At(c.mem, H.sizeOff) ELSE 0
 C14_Accept(c, trk, call, o) ==
-  CASE call.op = "ref_from_slice" ->
+  CASE call.op \in {"ref_from_slice", "ref_from_bytes"} ->      \* the latter: BytesRef::try_from, then ref_from_bytes on its result
          LET H == HeaderByName(call.h) IN AcceptRefFromSlice(H, Len(c.mem), Al(c), Declared(c, H), o)
     [] call.op = "bytes_ref" ->
          AcceptBytesRef(HeaderByName(call.h), Len(c.mem), Al(c), o)
@@ -125,6 +125,12 @@ AcceptWalkLast(w, k, dead, o) ==
   ELSE IF k < Len(w.items) THEN o.k = "some" /\ o.v.at = w.items[Len(w.items)].at /\ o.v.sv = RoundUp8(w.items[Len(w.items)].size)
   ELSE o.k = "none"
 \* receiver missing (constructor never returned): only "skipped" is acceptable
+\* size_hint of a tag iterator is a bound on what the walk still yields: never a panic on a live iterator (it reads
+\* nothing), lo <= remaining <= hi.  A dead iterator (one that has panicked) yields nothing more: lo must be 0.
+AcceptWalkHint(rem, dead, o) ==
+  IF dead THEN o.k = "panic" \/ (o.k = "hint" /\ LE8Small(o.lo) = 0)
+  ELSE o.k = "hint" /\ LE8Small(o.lo) <= rem /\ (o.hi.k = "none" \/ LE8Small(o.hi.v) >= rem)
+WalkRem(w, k) == IF k <= Len(w.items) THEN Len(w.items) - k ELSE 0
 C03_Accept(c, trk, call, o) ==
   CASE call.op = "tags" -> IF trk.loaded = "bi" THEN o.k = "unit" ELSE o.k = "skipped"
     [] call.op = "module_tags" -> IF trk.loaded = "bi" THEN o.k = "unit" ELSE o.k = "skipped"
@@ -139,6 +145,11 @@ C03_Accept(c, trk, call, o) ==
          IF s.dead \/ s.cp THEN TRUE
          ELSE IF w.fin = "panic" \/ \E i \in 1..Len(rest) : rest[i].size < ModuleBase THEN o.k = "panic"
          ELSE IsVal(o, U64Bytes(Len(rest)))
+    [] call.op = "size_hint" /\ HasIt(trk, call.it) /\ ItOf(trk, call.it).kind \in {"tags", "module_tags"} ->
+         LET s == ItOf(trk, call.it)  w == InfoWalk(c.mem) IN
+         IF s.kind = "tags" THEN AcceptWalkHint(WalkRem(w, s.k), s.dead, o)
+         ELSE IF s.cp THEN Controlled(o)
+         ELSE AcceptWalkHint(Len(SubSeq(ModItems(w), s.k + 1, Len(ModItems(w)))), s.dead, o)
     [] call.op = "next" ->
          IF ~HasIt(trk, call.it) THEN o.k = "skipped"
          ELSE LET s == ItOf(trk, call.it)  w == InfoWalk(c.mem) IN
@@ -269,7 +280,7 @@ AreaSpec(mem, i, f, g) ==
 AcceptArea(mem, i, f, o) == AcceptBySpec(AreaSpec(mem, i, f, EffGet(mem, "mmap")), o)
 
 \* ---- C15: user-defined tag types viewed through the public get_tag -----------------------------------
-\* call: [op "custom_get", t (type name), id (tag type number), sized, words | fixed, es (element size), ea (element alignment)]
+\* call: [op "custom_get", t (type name), id (tag type number), sized, words | fixed, es (element size), ea (element alignment), sa (alignment of the type)]
 CustomFind(c, call) == FindSpecT(InfoWalk(c.mem), call.id)
 AcceptCustomGet(c, call, o) ==
   LET f == CustomFind(c, call) IN
@@ -299,12 +310,6 @@ SpecConformant(mem, name, it) ==
     [] name = "mmap" -> MmapAreasSpec(mem, it).k # "panic"
     [] name = "rsdpv2" -> U32At(mem, it.at + 28) <= RsdpV2Max
     [] OTHER -> TRUE
-\* C04: first-match selection and exact decoding for conformant tags (and "nothing" when absent)
-C04_Accept(c, trk, call, o) ==
-  IF ~IsInfoRead(call) \/ trk.loaded # "bi" THEN TRUE
-  ELSE LET g == EffGet(c.mem, KindOfCall(call)) IN
-       (g.k = "absent" \/ (g.k = "must" /\ SpecConformant(c.mem, KindOfCall(call), g.it))) /\ call.op # "str"
-          => AcceptInfoRead(c, trk, call, o)
 \* C05: extents of variable-length kinds; undersized / non-divisible sizes are rejected by a panic
 C05_Accept(c, trk, call, o) ==
   IF ~IsInfoRead(call) \/ trk.loaded # "bi" THEN TRUE
@@ -337,8 +342,12 @@ C15_Accept(c, trk, call, o) ==
          \/ (o.k = "some" /\ Has(o.v, "at") /\ o.v.at = f.it.at /\ o.v.sv = RoundUp8(f.it.size))
          \/ (o.k = "some" /\ Has(o.v, "k") /\ (o.v.k = "err" \/ (o.v.v.at = f.it.at /\ o.v.v.sv = RoundUp8(f.it.size))))
 \* C17 (parse side): NUL / UTF-8 rules inside the declared size
+\* ... and the Debug rendering of a string tag shows the accessor's result: Ok("...") exactly when the string is one
 C17_Accept(c, trk, call, o) ==
-  IF call.op # "str" THEN TRUE ELSE AcceptInfoRead(c, trk, call, o)
+  IF call.op = "dbg" /\ trk.loaded = "bi" /\ o.k = "unit" /\ Has(o, "sok") /\ call.what \in {"cmdline", "bootloader"} THEN
+     LET g == EffGet(c.mem, call.what)  K == InfoKind(call.what) IN
+     g.k = "must" => o.sok = (IF StrSpec(Bytes(c.mem, g.it.at + K.base, g.it.size - K.base), g.it.at + K.base).k = "ok" THEN 1 ELSE 0)
+  ELSE IF call.op # "str" THEN TRUE ELSE AcceptInfoRead(c, trk, call, o)
 \* a getter / accessor whose walk panics before a match must panic (C03)
 C03_InfoRead(c, trk, call, o) ==
   IF ~IsInfoRead(call) \/ trk.loaded # "bi" THEN TRUE
@@ -381,13 +390,27 @@ C18_Accept(c, trk, call, o) ==
                  [] call.op = "len" -> AcceptEfiLen(c.mem, EfiIt(c), s.k, s.dead, o)
                  [] OTHER -> AcceptEfiHint(c.mem, EfiIt(c), s.k, s.dead, o))
     [] OTHER -> TRUE
+\* BootInformation::elf_sections() (deprecated): its own additional bound entry_size * shndx <= size may reject
+\* more than sections() does (with no sections, or in 32-bit arithmetic that overflows); where that bound holds as
+\* well, it is the plain getter: the iterator, never a panic
+ElfDeprValid(c) ==
+  /\ HasTagIt(c, "elf") /\ ElfFits(ElfParams(c.mem, ElfIt(c)))
+  /\ LET p == ElfParams(c.mem, ElfIt(c)) IN p.shndx < Far /\ MulFits(p.es, p.shndx, ElfIt(c).size)
+AcceptElfDeprecated(c, trk, o) ==
+  IF trk.loaded # "bi" THEN o.k = "skipped" ELSE AcceptIterNew(c, "elf", ElfDeprValid(c), o)
+\* C04: first-match selection and exact decoding for conformant tags (and "nothing" when absent)
+C04_Accept(c, trk, call, o) ==
+  IF call.op = "elf_sections_deprecated" /\ trk.loaded = "bi" THEN
+     (EffGet(c.mem, "elf").k = "absent" \/ ElfDeprValid(c)) => AcceptElfDeprecated(c, trk, o)
+  ELSE IF ~IsInfoRead(call) \/ trk.loaded # "bi" THEN TRUE
+  ELSE LET g == EffGet(c.mem, KindOfCall(call)) IN
+       (g.k = "absent" \/ (g.k = "must" /\ SpecConformant(c.mem, KindOfCall(call), g.it))) /\ call.op # "str"
+          => AcceptInfoRead(c, trk, call, o)
 C19_Accept(c, trk, call, o) ==
   CASE call.op = "elf_sections" ->
          IF trk.loaded # "bi" THEN o.k = "skipped"
          ELSE AcceptIterNew(c, "elf", HasTagIt(c, "elf") /\ ElfFits(ElfParams(c.mem, ElfIt(c))), o)
-    [] call.op = "elf_sections_deprecated" ->      \* the deprecated getter may reject more (its own partial bound)
-         IF trk.loaded # "bi" THEN o.k = "skipped"
-         ELSE AcceptIterNew(c, "elf", FALSE, o)
+    [] call.op = "elf_sections_deprecated" -> AcceptElfDeprecated(c, trk, o)
     [] call.op \in {"nth", "count", "last"} /\ HasIt(trk, call.it) /\ ItOf(trk, call.it).kind = "elf" ->
          LET s == ItOf(trk, call.it) IN
          IF ~HasTagIt(c, "elf") THEN FALSE
@@ -453,12 +476,18 @@ C10_Accept(c, trk, call, o) ==
     [] call.op = "calc_checksum" ->
          /\ o.k = "val" /\ ChecksumOk(call.magic, U32Bytes(call.arch), call.length, o.v)
          /\ o.twin = o.v
+    \* a basic header finalised for a new length (set_size through new_boxed) carries the checksum of that length
+    [] call.op = "new_boxed" /\ call.h = "mb" ->
+         o.k = "ok" /\ Len(o.v.bytes) >= 16 =>
+           ChecksumOk(Bytes(o.v.bytes, 0, 4), Bytes(o.v.bytes, 4, 4), Bytes(o.v.bytes, 8, 4), Bytes(o.v.bytes, 12, 4))
     [] OTHER -> TRUE
 C11_Accept(c, trk, call, o) ==
   CASE call.op = "hacc" -> AcceptHAcc(c, trk, call, o)
     [] call.op = "htags" -> IF trk.loaded = "hdr" THEN o.k = "unit" ELSE o.k = "skipped"
     [] call.op = "next" /\ HasIt(trk, call.it) /\ ItOf(trk, call.it).kind = "htags" ->
          LET s == ItOf(trk, call.it) IN AcceptHNext(HWalk(c.mem), s.k, s.dead, o)
+    [] call.op = "size_hint" /\ HasIt(trk, call.it) /\ ItOf(trk, call.it).kind = "htags" ->
+         LET s == ItOf(trk, call.it) IN AcceptWalkHint(WalkRem(HWalk(c.mem), s.k), s.dead, o)
     [] call.op \in {"nth", "count", "last"} /\ HasIt(trk, call.it) /\ ItOf(trk, call.it).kind = "htags" ->
          LET s == ItOf(trk, call.it)  w == HWalk(c.mem) IN
          IF call.op = "nth" THEN AcceptWalkNth(w, s.k, s.dead, call.n, o)
@@ -474,7 +503,7 @@ C05_HAccept(c, trk, call, o) ==
   ELSE AcceptHdrRead(c, trk, call, o)
 \* C09: never outside the declared header, never a crash
 C09_Accept(c, trk, call, o) ==
-  IF call.op \in HeaderOps \/ (call.op \in {"next", "clone", "nth", "count", "last"} /\ HasIt(trk, call.it) /\ ItOf(trk, call.it).kind = "htags")
+  IF call.op \in HeaderOps \/ (call.op \in {"next", "clone", "nth", "count", "last", "size_hint"} /\ HasIt(trk, call.it) /\ ItOf(trk, call.it).kind = "htags")
   THEN /\ Controlled(o)
        /\ LET L == U32At(c.mem, 8) IN \A e \in Exts(o) : Inside(e, 16, L)
   ELSE TRUE
@@ -515,8 +544,16 @@ C17_Build(c, trk, call, o) ==
   IF call.op \in {"construct", "b_set"} /\ CtorKind(call) \in {"cmdline", "bootloader", "module"}
      /\ (call.op = "construct" \/ trk.hasb)
   THEN AcceptCtor(call, o) ELSE TRUE
+\* the header kinds new_boxed is driven with: the crates' 8-byte tag headers, and two headers a user of the generic
+\* function may define whose size is not a multiple of 8 (12 bytes: type, size, one more word; 4 bytes: the size alone)
+NewBoxedHSize(call) == CASE call.h = "h12" -> 12 [] call.h = "h4" -> 4 [] call.h = "mb" -> 16 [] OTHER -> 8
 NewBoxedHead(call, total) ==
   CASE call.h = "htag" -> U16Bytes(1) \o U16Bytes(0) \o U32Bytes(total)
+    [] call.h = "h12" -> call.typ \o U32Bytes(total) \o <<187, 204, 221, 238>>
+    [] call.h = "h4" -> U32Bytes(total)
+    \* the basic header of the header crate (taken from a built header, architecture in call.typ): setting the size
+    \* re-establishes the checksum for the new length
+    [] call.h = "mb" -> HdrMagic \o call.typ \o U32Bytes(total) \o ChecksumBytes(HdrMagic, call.typ, U32Bytes(total))
     [] OTHER -> call.typ \o U32Bytes(total)
 C16_Accept(c, trk, call, o) ==
   CASE call.op = "clone_ref" ->
@@ -528,7 +565,7 @@ C16_Accept(c, trk, call, o) ==
               o.k = "ok" /\ EqUpTo(o.v.bytes, c.mem, d, FALSE) /\ o.v.sv = RoundUp8(d) /\ o.v.al = 0 /\ o.v.plen = d - H.hsize
     [] call.op = "new_boxed" ->
          LET body == FlatMap(LAMBDA x : x, call.slices)
-             total == 8 + Len(body)
+             total == NewBoxedHSize(call) + Len(body)
              E == NewBoxedHead(call, total) \o body IN
          /\ o.k = "ok" /\ EqUpTo(o.v.bytes, E, total, FALSE) /\ HeapObjOk(o.v, total)
          /\ (Has(o.v, "clone") => EqUpTo(o.v.clone.bytes, E, total, FALSE) /\ HeapObjOk(o.v.clone, total))
@@ -544,11 +581,13 @@ C06_Accept(c, trk, call, o) ==
   CASE call.op = "use_built" ->
          IF (call.which = "info" /\ trk.built = <<>>) \/ (call.which = "header" /\ trk.hbuilt = <<>>) THEN o.k = "skipped" ELSE o.k = "unit"
     [] call.op = "b_build" -> IF ~trk.hasb THEN o.k = "skipped" ELSE o.k = "ok" /\ AcceptInfoBuild(trk.bld, o.v)
-    [] call.op = "b_load" -> IF trk.built = <<>> THEN TRUE ELSE o.k = "ok" /\ o.v.total = Len(trk.built)
+    [] call.op = "b_load" -> IF trk.built = <<>> THEN TRUE
+                             ELSE o.k = "ok" /\ o.v.total = Len(trk.built) /\ o.v.ntags = Len(InfoWalk(trk.built).items)
     [] OTHER -> TRUE
 C12_Accept(c, trk, call, o) ==
   CASE call.op = "hb_build" -> IF ~trk.hashb THEN o.k = "skipped" ELSE o.k = "ok" /\ AcceptHdrBuild(trk.harch, trk.hbld, o.v)
-    [] call.op = "hb_load" -> IF trk.hbuilt = <<>> THEN TRUE ELSE o.k = "ok" /\ o.v.length = U32Bytes(Len(trk.hbuilt))
+    [] call.op = "hb_load" -> IF trk.hbuilt = <<>> THEN TRUE
+                              ELSE o.k = "ok" /\ o.v.length = U32Bytes(Len(trk.hbuilt)) /\ o.v.ntags = Len(HWalk(trk.hbuilt).items)
     [] OTHER -> TRUE
 
 \* ---- C20 -------------------------------------------------------------------------------------------------
@@ -675,7 +714,7 @@ DesignCustomGet(c, call) ==
     [] f.k = "panic" -> Panic
     [] OTHER ->
          IF call.sized THEN
-            LET r == DesignCastSized(f.it.at, RoundUp8(8 + 4 * call.words), f.it.size) IN
+            LET r == DesignCastSized(f.it.at, RoundUp(8 + 4 * call.words, call.sa), f.it.size) IN
             IF r.k = "panic" THEN Panic
             ELSE Some([at |-> r.v.at, sv |-> r.v.sv, fat |-> f.it.at + 8, first |-> Bytes(c.mem, f.it.at + 8, Min(4, 4 * call.words))])
          ELSE
@@ -692,7 +731,7 @@ DesignStep(c0, ds, call) ==
   CASE call.op = "use_built" ->
          IF (call.which = "info" /\ ds.built = <<>>) \/ (call.which = "header" /\ ds.hbuilt = <<>>) THEN [o |-> Skipped, ds |-> ds]
          ELSE [o |-> Unit, ds |-> [ds EXCEPT !.img = call.which, !.loaded = "none", !.its = <<>>]]
-    [] call.op = "ref_from_slice" ->
+    [] call.op \in {"ref_from_slice", "ref_from_bytes"} ->
          LET H == HeaderByName(call.h) IN
          [o |-> DesignRefFromSlice(H, Len(c.mem), Al(c), Declared(c, H)), ds |-> ds]
     [] call.op = "bytes_ref" ->
@@ -769,6 +808,8 @@ DesignStep(c0, ds, call) ==
               IF s.kind = "efi" THEN
                  LET rem == U64Bytes(s.st.entries - s.st.i) IN
                  [o |-> IF call.op = "len" THEN Val(rem) ELSE [k |-> "hint", lo |-> rem, hi |-> Some(rem)], ds |-> ds]
+              ELSE IF call.op = "size_hint" /\ s.kind \in {"tags", "module_tags", "htags"}
+                   THEN [o |-> [k |-> "hint", lo |-> U64Bytes(0), hi |-> None], ds |-> ds]      \* the design gives the trivial bound
               ELSE [o |-> Unit, ds |-> ds]
     [] IsInfoRead(call) ->
          [o |-> IF ds.loaded = "bi" THEN DesignInfoRead(c.mem, call) ELSE Skipped, ds |-> ds]
@@ -780,7 +821,7 @@ DesignStep(c0, ds, call) ==
                                ELSE IF call.op = "hb_set" THEN [ds EXCEPT !.hbld = Append(ds.hbld, [slot |-> call.slot, img |-> Enc(call.slot, call)])]
                                ELSE ds]
     [] call.op = "new_boxed" ->
-         LET body == FlatMap(LAMBDA x : x, call.slices)  total == 8 + Len(body)
+         LET body == FlatMap(LAMBDA x : x, call.slices)  total == NewBoxedHSize(call) + Len(body)
              v == HeapOutcome(NewBoxedHead(call, total) \o body) IN
          [o |-> Ok(IF Has(call, "clone") /\ call.clone THEN [clone |-> v] @@ v ELSE v), ds |-> ds]
     [] call.op = "b_new" -> [o |-> Unit, ds |-> [ds EXCEPT !.hasb = TRUE, !.bld = <<>>, !.built = <<>>]]
@@ -792,9 +833,9 @@ DesignStep(c0, ds, call) ==
          IF ~ds.hashb THEN [o |-> Skipped, ds |-> ds]
          ELSE LET v == DesignHdrBuild(ds.harch, ds.hbld) IN [o |-> Ok(v), ds |-> [ds EXCEPT !.hashb = FALSE, !.hbuilt = v.bytes]]
     [] call.op = "b_load" ->
-         [o |-> IF ds.built = <<>> THEN Skipped ELSE Ok([total |-> Len(ds.built)]), ds |-> ds]
+         [o |-> IF ds.built = <<>> THEN Skipped ELSE Ok([total |-> Len(ds.built), ntags |-> Len(InfoWalk(ds.built).items)]), ds |-> ds]
     [] call.op = "hb_load" ->
-         [o |-> IF ds.hbuilt = <<>> THEN Skipped ELSE Ok([length |-> U32Bytes(Len(ds.hbuilt))]), ds |-> ds]
+         [o |-> IF ds.hbuilt = <<>> THEN Skipped ELSE Ok([length |-> U32Bytes(Len(ds.hbuilt)), ntags |-> Len(HWalk(ds.hbuilt).items)]), ds |-> ds]
     [] call.op = "conv_tag_type" ->
          LET v == TagTypeVariant(call.x)  e == IF call.x = call.y THEN 1 ELSE 0 IN
          [o |-> [k |-> "conv", variant |-> v, via_id |-> v, back |-> call.x, val |-> call.x, id_back |-> call.x, id_new |-> call.x,
